@@ -231,6 +231,64 @@ def _build(V, driver, seed):
     return sim, atoms
 
 
+class _IntMeta(type):
+    def __call__(cls, x=0, *a):
+        if isinstance(x, SI) and not a:
+            return x
+        return int(x, *a)
+
+    def __instancecheck__(cls, obj):
+        return isinstance(obj, (int, SI))
+
+
+class SymInt(int, metaclass=_IntMeta):
+    """Stands in for the builtin `int` in the driver modules while a symbolic seed is passed through them:
+    int(seed) keeps the symbol (a normalising int(...) is legitimate; what follows it is checked)."""
+
+
+def _driver_modules():
+    import sys
+
+    return [m for n, m in sys.modules.items() if n.startswith("quansino.mc") and m is not None and "int" not in vars(m)]
+
+
+# seeds straddling every machine-word width a careless conversion could clip to
+WORD_SEEDS = (0, 1, 2**31 - 1, 2**31, 2**32 - 1, 2**32, 2**32 + 5, 2**53 + 1, 2**63 - 1, 2**63, 2**64 - 1, 2**64, 2**64 + 12345, 2**70 + 11, 2**128 + 3)
+
+
+def sc_seed_words(V, driver="Canonical"):
+    """The same clauses for concrete seeds at the machine-word boundaries (finite domain, solver-driven choice):
+    they are all legal seeds, and conversions through fixed-width types fork by value and escape `sc_seed`."""
+    seed = WORD_SEEDS[V.choice("which", len(WORD_SEEDS))]
+    info = f"seed-words:{driver}:seed={seed}"
+    if V.mode == "sym":
+        StubPCG64.created.clear()
+        StubGenerator.created.clear()
+    try:
+        sim, atoms = _build(V, driver, seed)
+    except (symx.PathAbort, symx.BoundHit, symx.Unsupported, symx.ReplayMismatch):
+        raise
+    except Exception as ex:  # noqa: BLE001
+        V.fail("seed-kept-as-given", info=info + ":constructor raised " + type(ex).__name__)
+        return
+    V.reach("built")
+    kept = sim._seed
+    V.prove(isinstance(kept, (int, np.integer)) and int(kept) == seed, "seed-kept-as-given", info=info + f":kept={kept}")
+    if V.mode == "sym":
+        seeded = [b for b in StubPCG64.created if not b.foreign]
+        ok = bool(seeded) and isinstance(seeded[-1].seed, (int, np.integer)) and int(seeded[-1].seed) == seed
+        V.prove(ok, "generator-seeded-with-the-given-seed", info=info + f":used={seeded[-1].seed if seeded else None}")
+        V.prove(getattr(sim._rng, "bit_generator", None) is seeded[-1] if seeded else False, "generator-uses-that-bit-generator", info=info)
+    else:
+        from numpy.random import PCG64, Generator
+
+        V.prove(sim._rng.bit_generator.state == Generator(PCG64(seed)).bit_generator.state, "generator-seeded-with-the-given-seed", info=info)
+    d = sim.todict() if hasattr(sim, "todict") else {}
+    rec = (d.get("kwargs") or {}).get("seed", d.get("seed"))
+    if rec is not None:
+        V.prove(int(rec) == seed, "seed-reported-as-given", info=info + f":reported={rec}")
+
+
 def sc_seed(V, driver="Canonical"):
     """The seed the user passed is the seed that is kept and used (every seed >= 0, also 0)."""
     info = f"seed:{driver}"
@@ -238,7 +296,15 @@ def sc_seed(V, driver="Canonical"):
         StubPCG64.created.clear()
         StubGenerator.created.clear()
         seed = V.int("seed", 0, None)
-        sim, atoms = _build(V, driver, seed)
+        mods = _driver_modules()
+        for m in mods:
+            m.int = SymInt
+        try:
+            sim, atoms = _build(V, driver, seed)
+        finally:
+            for m in mods:
+                if vars(m).get("int") is SymInt:
+                    del m.int
         V.reach("seed-zero" if bool(SB(seed.e == 0)) else "seed-positive")
         kept = sim._seed
         V.prove(SB(symx.ilift(kept) == seed.e) if isinstance(kept, (SI, int, np.integer)) else False, "seed-kept-as-given", info=info)
@@ -323,7 +389,7 @@ def sc_foreign(V, driver="Canonical"):
     V.prove(same, "no-foreign-entropy-consumed", info=info)
 
 
-SCENARIOS = {"seed": sc_seed, "foreign": sc_foreign}
+SCENARIOS = {"seed": sc_seed, "seed_words": sc_seed_words, "foreign": sc_foreign}
 replay = generic_replay(SCENARIOS)
 
 
@@ -332,6 +398,8 @@ def _plan(tier):
     for d in DRIVERS:
         P.append(("seed", dict(driver=d), ("seed-zero", "seed-positive")))
         P.append(("foreign", dict(driver=d), ("stepped",)))
+    for d in ("Canonical", "GrandCanonical", "ForceBias") if tier == "quick" else DRIVERS:
+        P.append(("seed_words", dict(driver=d), ("built",)))
     return P
 
 
@@ -339,7 +407,7 @@ def run(rep: Report):
     tier = rep.tier
     opts = {"prove_timeout_ms": 10000, "fork_timeout_ms": 700, "seed": rep.seed, "scenario_wall_s": 240 if tier == "quick" else 900}
     run_plan(rep, _plan(tier), SCENARIOS, opts)
-    rep.bounds = {"seed": "symbolic integer >= 0 (unbounded)", "drivers": list(DRIVERS), "steps": "1 step (1 cycle) with the shipped default moves, 2 atoms"}
+    rep.bounds = {"seed": "symbolic integer >= 0 (unbounded); plus 15 concrete seeds at the 31/32/53/63/64/128-bit boundaries", "drivers": list(DRIVERS), "steps": "1 step (1 cycle) with the shipped default moves, 2 atoms"}
     rep.assumptions = ["numpy PCG64/Generator replaced by recording stubs (the bit-level stream is numpy's business)", "foreign entropy = numpy global generator functions, unseeded default_rng, Python random, time, os.urandom called directly from quansino source"]
     rep.stubs = ["StubPCG64, StubGenerator(SymRNG)", "Foreign call monitor"]
     rep.outside = ["'different seeds give different trajectories' and bit-identity of PCG64 streams (numpy internals: 128-bit LCG and float conversion, not quansino code)", "log-file text equality (follows from state equality: shipped log fields read only simulation state)", "entropy obtained through function-local imports of other libraries"]
